@@ -230,6 +230,24 @@ class World(object):
                     if not (isinstance(got, np.ndarray) and got.shape == exp.shape and
                             np.array_equal(np.asarray(got, dtype=np.float64), exp)):
                         bad.append(('store', 'waveforms-differ-from-raw', describe(exp), describe(got)))
+                    # a request that mixes stored and unstored spikes falls back to the raw data and
+                    # must give the same windows
+                    all_ids = np.arange(len(tr['spike_samples']))[::-1].copy()
+                    exp_all = np.zeros((len(all_ids), nsw, 2))
+                    for i, sid in enumerate(all_ids):
+                        s = int(tr['spike_samples'][sid])
+                        for r in range(nsw):
+                            t = s - nsw // 2 + r
+                            if 0 <= t < raw.shape[0]:
+                                exp_all[i, r] = raw[t, ch]
+                    try:
+                        got_all = m.get_waveforms(all_ids, ch)
+                    except Exception as e:
+                        got_all = e
+                    if not (isinstance(got_all, np.ndarray) and got_all.shape == exp_all.shape and
+                            np.array_equal(np.asarray(got_all, dtype=np.float64), exp_all)):
+                        bad.append(('store', 'mixed-stored-unstored-request-differs-from-raw',
+                                    describe(exp_all), describe(got_all)))
                     st = tr['spike_templates']
                     per_t = {}
                     for sid in np.asarray(sw.spike_ids).tolist():
